@@ -328,6 +328,14 @@ def check_wrapper(ctx, u, rec):
                     c2, r2 = sym_method(fd_, state['cur'], av, depth + 1)
                     return r2
                 raise SymUnrec('call through `%s`' % src_text(kids(e0)[1], 30))
+            if k == 'CXXOperatorCallExpr' and call_name(e0) in ('operator++', 'operator--') and len(kids(e0)) in (2, 3) and term(kids(e0)[1]) == ('this',):
+                d_ = ref_decl(kids(e0)[0])
+                tgt = all_members.get((d_ or {}).get('id'))
+                if tgt is None or tgt is f:
+                    raise SymUnrec('call of %s' % call_name(e0))
+                c2, r2 = sym_method(tgt, state['cur'], [('const', 0)] if len(kids(e0)) == 3 else [], depth + 1)
+                state['cur'] = c2
+                return r2
             if k == 'CXXOperatorCallExpr' and len(kids(e0)) == 3 and term(kids(e0)[1]) == ('this',):
                 d_ = ref_decl(kids(e0)[0])
                 tgt = all_members.get((d_ or {}).get('id'))
